@@ -78,14 +78,32 @@ bin   = { ASCII_BIN_DIGIT+ ~ ASCII_OCT_DIGIT* ~ ASCII_NONZERO_DIGIT? }
 id    = @{ (ASCII_ALPHA | "_") ~ (ASCII_ALPHANUMERIC | "_")* }
 doc   = { SOI ~ (id ~ "=" ~ (num | hex | id))* ~ EOI }
 greek = { GREEK+ ~ NUMBER* }
+kw    = ${ ("ab" | "a" | "abc" | "b" | "ba") ~ "c"? }
+kws   = { (kw ~ ",")* ~ kw }
+op    = { "===" | "==" | "=>" | "=" | "<=" | "<" }
+cmp   = { id ~ op ~ (num | id) }
 '''
 P_BUILTIN_CALLS = [
     ("r", "x1"), ("r", "xa\n"), ("r", "xa"), ("word", "abc"), ("word", "1"), ("word", ""), ("num", "12.5"), ("num", "12."), ("num", "x"),
     ("hex", "0xfg"), ("hex", "0xg"), ("line", "ab 12 0x1f\n"), ("line", "ab 12 zz\n"), ("line", "ab"), ("nd", "ab1"), ("nd", "1"),
     ("up", "Ab"), ("up", "ab"), ("up", "ÉÀ"), ("anyline", "abc\n"), ("anyline", "abc"), ("alnum", "a1_"), ("alnum", "_"),
     ("bin", "0179"), ("bin", "2"), ("id", "_a1-"), ("id", "1a"), ("doc", "a = 1 b=0x1f c = d"), ("doc", "a = 1 b=0x"), ("doc", "a = \n ?"),
-    ("greek", "αβγ12"), ("greek", "abc"),
+    ("greek", "αβγ12"), ("greek", "abc"), ("kw", "abc"), ("kw", "ab"), ("kw", "bac"), ("kw", "c"), ("kws", "ab, a ,abc,bac"), ("kws", "abcc"), ("op", "==="), ("op", "<="), ("op", "=>"), ("cmp", "a === b"), ("cmp", "a <= 1"), ("cmp", "a == = b"),
 ]
+
+# twin of P-builtin: same rule names, same literal/range SETS in every choice, other order
+P_BUILTIN2 = r'''
+WHITESPACE = _{ NEWLINE | " " }
+word  = { ASCII_ALPHA+ }
+num   = { ASCII_DIGIT+ ~ ("." ~ ASCII_DIGIT+)? }
+hex   = { "0x" ~ ASCII_HEX_DIGIT+ }
+kw    = ${ ("a" | "b" | "ba" | "abc" | "ab") ~ "c"? }
+kws   = { (kw ~ ",")* ~ kw }
+id    = @{ ("_" | ASCII_ALPHA) ~ ("_" | ASCII_ALPHANUMERIC)* }
+op    = { "=" | "==" | "===" | "<" | "<=" | "=>" }
+cmp   = { id ~ op ~ (num | id) }
+'''
+P_BUILTIN2_CALLS = [("kw", "abc"), ("kw", "ab"), ("kw", "bac"), ("kw", "c"), ("kws", "ab, a ,abc,bac"), ("kws", "abcc"), ("op", "==="), ("op", "<="), ("op", "=>"), ("cmp", "a === b"), ("cmp", "a <= 1"), ("cmp", "a == = b"), ("id", "_a1-"), ("word", "abc"), ("num", "12."), ("hex", "0xfg")]
 
 P_TWIN1 = r'''
 WHITESPACE = _{ " " }
@@ -160,6 +178,7 @@ FIXED = {
     "P-leak": {"text": P_LEAK, "calls": P_LEAK_CALLS, "deep": P_LEAK_DEEP},
     "P-leak2": {"text": P_LEAK2, "calls": P_LEAK2_CALLS, "deep": [("v", "<" * 80 + "y" + ">" * 80), ("first", "1" * 120)]},
     "P-builtin": {"text": P_BUILTIN, "calls": P_BUILTIN_CALLS},
+    "P-builtin2": {"text": P_BUILTIN2, "calls": P_BUILTIN2_CALLS},
     "P-twin1": {"text": P_TWIN1, "calls": P_TWIN1_CALLS},
     "P-twin2": {"text": P_TWIN2, "calls": P_TWIN2_CALLS},
 }
@@ -213,6 +232,24 @@ def random_grammar(rng: random.Random):
     for _ in range(rng.randint(4, 8)):
         calls.append((rng.choice(names), "".join(rng.choice(_ALPHABET + "ab") for _ in range(rng.randint(0, 8)))))
     return {"text": text, "calls": calls}
+
+
+def twin_of(g):
+    """Same rule names and the same alternatives in every choice, in reverse order (a
+    different language in general): exercises caches keyed by names or by *sets*."""
+    import re as _re  # noqa: PLC0415
+
+    def rev(m):
+        alts = [a.strip() for a in m.group(1).split(" | ")]
+        return "(" + " | ".join(reversed(alts)) + ")"
+
+    text = g["text"]
+    for _ in range(4):
+        new = _re.sub(r"\(([^()]*? \| [^()]*?)\)", rev, text)
+        if new == text:
+            break
+        text = new
+    return {"text": text, "calls": list(g["calls"])}
 
 
 PASS_NAMES = ("unroll", "skip", "inline built-in", "squash_choice", "inline silent")
